@@ -1,4 +1,5 @@
 import SamplyModel.Lemmas.Candidates
+import SamplyModel.Lemmas.CandidateFiles
 /-!
 # C06 — symbols and binaries are only ever served from files of the requested build
 
@@ -245,6 +246,160 @@ theorem C06_pdb_companion {β : Type} (binId : DebugId ι) (pdb : Load (SymInfo 
     · cases h
   · cases h
 
+/-! ### improvement round: the CRC as a function of the file's bytes (elf.rs:181-200) -/
+
+/-- `compute_debug_link_crc_of_file_contents` hashes every byte of the file exactly once, in order: for every
+streaming hasher (`step`), every chunk size > 0 and every file that does not end within `chunk` bytes of 2^64,
+the chunked loop yields the hash of the whole byte string. -/
+theorem C06_crc_covers_file {σ : Type} (step : σ → UInt8 → σ) (init : σ) (chunk : Nat) (hc : 0 < chunk)
+    (bytes : List UInt8) (hsz : bytes.length + chunk ≤ 2 ^ 64) :
+    crcChunked step init chunk bytes = .ok (bytes.foldl step init) := by
+  rcases crcChunked_spec step init chunk hc bytes with h | ⟨_, h⟩
+  · exact h
+  · omega
+
+/-- Without the size hypothesis: whenever the loop yields a hash at all, it is the hash of the whole file; the
+only other outcome is the `u64` overflow of `offset` (a file within `chunk` bytes of 2^64). -/
+theorem C06_crc_sound {σ : Type} (step : σ → UInt8 → σ) (init : σ) (chunk : Nat) (hc : 0 < chunk)
+    (bytes : List UInt8) :
+    (∀ s, crcChunked step init chunk bytes = .ok s → s = bytes.foldl step init)
+    ∧ crcChunked step init chunk bytes ≠ .fuel := by
+  rcases crcChunked_spec step init chunk hc bytes with h | ⟨h, _⟩
+  · rw [h]; exact ⟨fun s hs => (by cases hs; rfl), (by simp)⟩
+  · rw [h]; exact ⟨fun s hs => (by cases hs), (by simp)⟩
+
+/-- The result does not depend on the chunk size. -/
+theorem C06_crc_chunk_independent {σ : Type} (step : σ → UInt8 → σ) (init : σ) (c₁ c₂ : Nat) (h₁ : 0 < c₁)
+    (h₂ : 0 < c₂) (bytes : List UInt8) (hs₁ : bytes.length + c₁ ≤ 2 ^ 64) (hs₂ : bytes.length + c₂ ≤ 2 ^ 64) :
+    crcChunked step init c₁ bytes = crcChunked step init c₂ bytes := by
+  rw [C06_crc_covers_file step init c₁ h₁ bytes hs₁, C06_crc_covers_file step init c₂ h₂ bytes hs₂]
+
+/-- `C06_debuglink` on file contents: a `.gnu_debuglink` target is used only if it could be read and the hash
+*of all of its bytes* is the one stated in the section. -/
+theorem C06_debuglink_bytes {σ β : Type} (h : Hasher σ) (chunk : Nat) (hc : 0 < chunk) (link : Option Nat)
+    (hasId : Bool) (fs : List (DlFile β)) (p : β) (hu : debugLinkFiles h chunk link hasId fs = .used p) :
+    ∃ wanted, link = some wanted ∧ hasId = true ∧
+      ∃ f ∈ fs, f.payload = p ∧ ∃ b, f.bytes = some b ∧ h.whole b = wanted := by
+  simp only [debugLinkFiles] at hu
+  split at hu
+  · rename_i wanted
+    obtain ⟨f, hf, h1, _, b, hb, hw⟩ := debugLinkFilesLoop_used h chunk hc wanted fs p hu
+    exact ⟨wanted, rfl, rfl, f, hf, h1, b, hb, hw⟩
+  · cases hu
+
+/-- Every byte-level corruption that changes the hash is refused: if no readable candidate's bytes hash to the
+stated value, no companion is used. -/
+theorem C06_debuglink_bytes_no_fallback {σ β : Type} (h : Hasher σ) (chunk : Nat) (hc : 0 < chunk) (wanted : Nat)
+    (hasId : Bool) (fs : List (DlFile β)) (hn : ∀ f ∈ fs, ∀ b, f.bytes = some b → h.whole b ≠ wanted) :
+    ∀ p, debugLinkFiles h chunk (some wanted) hasId fs ≠ .used p := by
+  intro p hu
+  obtain ⟨w, hw, _, f, hf, _, b, hb, hh⟩ := C06_debuglink_bytes h chunk hc (some wanted) hasId fs p hu
+  cases hw
+  exact hn f hf b hb hh
+
+/-- The byte-level loop refines `debugLink` (the model the driver runs, with the whole-file hash as a field), and
+does not panic, for files that do not end within `chunk` bytes of 2^64. -/
+theorem C06_debuglink_bytes_refines {σ β : Type} (h : Hasher σ) (chunk : Nat) (hc : 0 < chunk) (link : Option Nat)
+    (hasId : Bool) (fs : List (DlFile β))
+    (hsz : ∀ f ∈ fs, ∀ b, f.bytes = some b → b.length + chunk ≤ 2 ^ 64) :
+    debugLinkFiles h chunk link hasId fs
+      = (match debugLink link hasId (fs.map (DlFile.toCand h)) with
+        | some p => .used p
+        | none => .notUsed)
+    ∧ debugLinkFiles h chunk link hasId fs ≠ .panic := by
+  have key : debugLinkFiles h chunk link hasId fs
+      = (match debugLink link hasId (fs.map (DlFile.toCand h)) with
+        | some p => .used p
+        | none => .notUsed) := by
+    cases link with
+    | none => cases hasId <;> rfl
+    | some wanted =>
+      cases hasId with
+      | false => rfl
+      | true => exact debugLinkFilesLoop_refines h chunk hc wanted fs hsz
+  refine ⟨key, ?_⟩
+  rw [key]
+  split <;> simp
+
+/-! ### improvement round: the `.symindex` sidecar of a Breakpad candidate (lib.rs:611-624, symbol_map.rs:62-70) -/
+
+/-- What `load_symbol_map` guarantees for Breakpad candidates with sidecars: the id that the map *reports* is the
+requested one and it is the reported id of candidate `k`; the lookups are served from candidate `k`'s own text. -/
+theorem C06_symindex_reported (native : List ι) (req : DebugId ι) (cs : List (BpCand ι)) (k : Nat) (m : SymInfo ι)
+    (b : Option (DebugId ι)) (h : loadSymbolMapBp native (some req) cs = (.ok k m, b)) :
+    m.debugId = req ∧ ∃ c, cs[k]? = some c ∧ c.reported = req ∧ b = some c.own := by
+  simp only [loadSymbolMapBp] at h
+  split at h
+  · rename_i k' m' hk
+    simp only [Prod.mk.injEq, SymOut.ok.injEq] at h
+    obtain ⟨⟨rfl, rfl⟩, hb⟩ := h
+    obtain ⟨h1, c, hc, hl, _⟩ := C06_symbol_map native req _ k' m' hk
+    rw [List.getElem?_map] at hc
+    cases hck : cs[k']? with
+    | none => simp [hck] at hc
+    | some c0 =>
+      simp only [hck, Option.map_some, Option.some.injEq] at hc
+      subst hc
+      simp only [BpCand.toCandidate, Candidate.load, Load.toExcept] at hl
+      cases hl
+      refine ⟨h1, c0, rfl, h1, ?_⟩
+      rw [← hb, hck]; rfl
+  · rename_i hne
+    simp only [Prod.mk.injEq] at h
+    exact absurd h.1 (hne k m)
+
+/-- If every sidecar that parses states the id of its own `.sym` (what `ensure_symindex` produces from the file
+next to it), a symbol map that is handed out serves its lookups from a file of the requested build.
+The hypothesis is needed: the code compares nothing (`C06_symindex_unguarded_counterexample`); sidecars of another
+build are an excluded point that the generator produces and the judge decides. -/
+theorem C06_symindex_consistent (native : List ι) (req : DebugId ι) (cs : List (BpCand ι)) (k : Nat) (m : SymInfo ι)
+    (b : Option (DebugId ι)) (hcons : ∀ c ∈ cs, ∀ d, c.side = .ok d → d = c.own)
+    (h : loadSymbolMapBp native (some req) cs = (.ok k m, b)) : b = some req := by
+  obtain ⟨_, c, hc, hr, hb⟩ := C06_symindex_reported native req cs k m b h
+  have hmem : c ∈ cs := List.mem_of_getElem? hc
+  rw [hb]
+  congr 1
+  simp only [BpCand.reported] at hr
+  split at hr
+  · rename_i d hd
+    rw [← hcons c hmem d hd]; exact hr
+  · exact hr
+
+/-- The sidecar is unguarded: one `.sym` of build `0xA` next to a `.symindex` of build `0xB` answers a request for
+`0xB` with a map that reports `0xB` and serves the text of build `0xA`. -/
+theorem C06_symindex_unguarded_counterexample :
+    loadSymbolMapBp ([] : List Nat) (some ⟨0xB, 0⟩) [⟨⟨0xA, 0⟩, .ok ⟨0xB, 0⟩⟩]
+      = (.ok 0 ⟨⟨0xB, 0⟩⟩, some ⟨0xA, 0⟩) := by decide
+
+/-! ### improvement round: dyld shared cache entry points (lib.rs:472-545) -/
+
+/-- With a `DebugId` disambiguator, `load_binary_for_dyld_cache_image` / `load_symbol_map_for_dyld_cache_image`
+return only a result that reports that id, and it comes from one of the caches. -/
+theorem C06_dyld_by_id {α : Type} (idOf : α → Option (DebugId ι)) (req : DebugId ι) (caches : List (Load α)) (a : α)
+    (h : loadForDyldCacheImage idOf (some (.debugId req)) caches = .ok a) :
+    idOf a = some req ∧ .ok a ∈ caches := by
+  obtain ⟨h1, h2⟩ := dyldLoop_ok idOf _ caches none a h
+  exact ⟨h2 req rfl, h1⟩
+
+theorem C06_dyld_no_fallback {α : Type} (idOf : α → Option (DebugId ι)) (req : DebugId ι) (caches : List (Load α))
+    (h : ∀ a, .ok a ∈ caches → idOf a ≠ some req) :
+    ∀ a, loadForDyldCacheImage idOf (some (.debugId req)) caches ≠ .ok a :=
+  dyldLoop_none_match idOf req caches none h
+
+/-- Documented gap of the code (not of the model): with an `Arch` disambiguator or none, the first cache that
+contains the dylib is returned without any id check (lib.rs:501 / :540). -/
+theorem C06_dyld_unchecked_without_id {α : Type} (idOf : α → Option (DebugId ι)) (d : Option (Disamb ι))
+    (hd : ∀ r, d ≠ some (.debugId r)) (a : α) (rest : List (Load α)) :
+    loadForDyldCacheImage idOf d (.ok a :: rest) = .ok a := by
+  cases d with
+  | none => rfl
+  | some d' =>
+    cases d' with
+    | debugId r => exact absurd rfl (hd r)
+    | arch _ => rfl
+    | bestMatch _ => rfl
+    | native => rfl
+
 /-! ### Non-vacuity: concrete candidate lists (`ι := Nat`) on which hypotheses and conclusions are live -/
 
 section
@@ -281,4 +436,21 @@ example : debugLink (some 99) true [⟨true, 98, true, "wrong"⟩, ⟨false, 99,
 example : supplementary (some 5) [⟨true, true, some 6, "wrong"⟩, ⟨true, true, none, "noid"⟩, ⟨true, true, some 5, "right"⟩] = some "right" := by
   decide
 example : pdbCompanion idA (.ok ⟨idA1⟩) "pdb" = none ∧ pdbCompanion idA (.ok ⟨idA⟩) "pdb" = some "pdb" := by decide
+-- CRC: chunked = whole on a concrete hasher (sum of bytes) with chunk sizes 1, 2, 3 and > length
+example : crcChunked (fun (s : Nat) (b : UInt8) => s * 31 + b.toNat) 7 2 [1, 2, 3, 4, 5]
+    = .ok ([1, 2, 3, 4, 5].foldl (fun (s : Nat) (b : UInt8) => s * 31 + b.toNat) 7) := by decide
+example : crcChunked (fun (s : Nat) (b : UInt8) => s * 31 + b.toNat) 7 3 [1, 2, 3] = .ok ((7 * 31 + 1) * 31 * 31 + 2 * 31 + 3) := by decide
+-- the standard check value of CRC-32: "123456789" ↦ 0xCBF43926
+set_option maxRecDepth 100000 in
+example : crc32.whole [0x31, 0x32, 0x33, 0x34, 0x35, 0x36, 0x37, 0x38, 0x39] = 0xCBF43926 := by decide
+-- byte-level debuglink: the corrupted twin (last byte differs) is refused, the genuine file behind it is used
+example : debugLinkFiles (⟨7, fun s b => s * 31 + b.toNat, id⟩ : Hasher Nat) 4 (some (((((7 * 31 + 1) * 31 + 2) * 31 + 3) * 31 + 4) * 31 + 5)) true
+    [⟨some [1, 2, 3, 4, 6], true, "corrupt"⟩, ⟨none, true, "gone"⟩, ⟨some [1, 2, 3, 4, 5], true, "genuine"⟩] = .used "genuine" := by
+  decide
+-- sidecars: consistent, absent and unparsable ones leave the `.sym`'s own id in charge
+example : loadSymbolMapBp ([] : List Nat) (some idA) [⟨idB, .unreadable⟩, ⟨idA, .unparsable⟩] = (.ok 1 ⟨idA⟩, some idA) := by decide
+example : loadSymbolMapBp ([] : List Nat) (some idA) [⟨idA, .ok idB⟩] = (.single (.unmatched (some idB)), none) := by decide
+-- dyld: the first cache holds another build, the second the requested one
+example : loadForDyldCacheImage (ι := Nat) (fun (x : Nat) => some ⟨x, 0⟩) (some (.debugId idA)) [.ok 0xB, .unreadable, .ok 0xA]
+    = .ok 0xA := by decide
 end
